@@ -51,7 +51,7 @@ func init() {
 		Eval:   c09Eval,
 		Shrink: c09Shrink,
 		Rule: "bases: TOK(Σ_full,N) (accepted and rejected) and TREE texts (all variants on both); variants: every gap filled uniformly from {tab, newline, CR, two spaces, mixed} and with nothing where the neighbours cannot fuse, " +
-			"every single-gap deviation, leading/trailing fillings; every case pattern of every keyword occurrence; redundant parentheses at the root, at each operand of an explicit operator and around each term value; " +
+			"every single-gap deviation, leading/trailing fillings; every case pattern of every keyword occurrence; redundant parentheses at the root, at each operand of an explicit operator (the numeric argument of ~ ^ included) and around each term value; " +
 			"non-trivial = base parses; distinct = distinct base trees; states count variants",
 		Assumptions: []string{"only the four ASCII whitespace characters the lexer documents", "the empty filler is used only next to a symbol token ()[]{}:+=><~^ (never merges tokens)"},
 		Bounds: func(tier string) map[string]any {
@@ -394,13 +394,16 @@ func c09Run(w *core.Worker, tier, unit string) {
 func parenSpecs(t *qast.Node) []string {
 	specs := []string{"root"}
 	idx := 0
-	var operands, vals []int
+	var operands, vals, args []int
 	var rec func(n *qast.Node, isOperand bool)
 	rec = func(n *qast.Node, isOperand bool) {
 		my := idx
 		idx++
 		if isOperand {
 			operands = append(operands, my)
+		}
+		if (n.Op == qast.OFuzzy || n.Op == qast.OBoost) && n.Arg != "" {
+			args = append(args, my)
 		}
 		if n.Op == qast.OLeaf {
 			if n.Leaf.Kind == qast.LEq {
@@ -420,6 +423,10 @@ func parenSpecs(t *qast.Node) []string {
 	for _, i := range vals {
 		specs = append(specs, fmt.Sprintf("val:%d", i))
 	}
+	// the numeric argument of ~ and ^ is an operand of an explicitly written operator too
+	for _, i := range args {
+		specs = append(specs, fmt.Sprintf("arg:%d", i))
+	}
 	if len(operands)+len(vals) > 1 {
 		specs = append(specs, "all")
 	}
@@ -427,7 +434,7 @@ func parenSpecs(t *qast.Node) []string {
 }
 
 func applyParens(t *qast.Node, spec string) (string, bool) {
-	o := &qast.PrintOpts{Extra: map[*qast.Node]bool{}, ValueParens: map[*qast.Leaf]bool{}}
+	o := &qast.PrintOpts{Extra: map[*qast.Node]bool{}, ValueParens: map[*qast.Leaf]bool{}, ArgParens: map[*qast.Node]bool{}}
 	p := strings.Split(spec, ":")
 	want := -1
 	if len(p) == 2 {
@@ -453,6 +460,11 @@ func applyParens(t *qast.Node, spec string) (string, bool) {
 		case "val":
 			if my == want && n.Op == qast.OLeaf && n.Leaf.Kind == qast.LEq {
 				o.ValueParens[n.Leaf] = true
+				found = true
+			}
+		case "arg":
+			if my == want && (n.Op == qast.OFuzzy || n.Op == qast.OBoost) && n.Arg != "" {
+				o.ArgParens[n] = true
 				found = true
 			}
 		case "all":
